@@ -48,7 +48,7 @@ FLAVOURS = {
 }
 
 # harness TUs that must NOT be tsan-instrumented (scheduler/VFS bookkeeping is shared by design)
-TSAN_UNINSTRUMENTED = {"sched.c", "vfs.c", "util.c"}
+TSAN_UNINSTRUMENTED = {"sched.c", "vfs.c", "util.c", "drv.c"}
 
 
 def src_root():
@@ -132,7 +132,23 @@ def _compile_many(jobs):
         list(ex.map(one, todo))
 
 
-def build_lib(flavour):
+CORE = ["sched.c", "vfs.c", "util.c", "drv.c"]
+
+
+def _link_list(driver_src):
+    """harness TUs a driver links: all of harness/*.c, or (if the driver source has a
+    'VH_LINK: a b c' comment) the core plus the listed ones"""
+    hdir = os.path.join(VERIF, "harness")
+    allc = sorted(f for f in os.listdir(hdir) if f.endswith(".c"))
+    if driver_src:
+        import re
+        m = re.search(r"VH_LINK:([^\n*]*)", open(driver_src).read())
+        if m:
+            return CORE + [x + ".c" for x in m.group(1).split() if x + ".c" not in CORE]
+    return allc
+
+
+def build_lib(flavour, only=None):
     """compile lcdb + harness common objects for a flavour; returns (dir, [objects])"""
     fl = FLAVOURS[flavour]
     d = os.path.join(build_dir(), flavour)
@@ -146,9 +162,7 @@ def build_lib(flavour):
         objs.append(o)
         jobs.append(([fl["cc"], "-c", os.path.join(root, s)] + PINNED + ren + fl["opt"] + fl["san"] + inc + ["-w"], o))
     hdir = os.path.join(VERIF, "harness")
-    for s in sorted(os.listdir(hdir)):
-        if not s.endswith(".c"):
-            continue
+    for s in (only if only is not None else _link_list(None)):
         o = os.path.join(d, "h_" + s[:-2] + "_" + _hfile_hash(os.path.join(hdir, s)) + ".o")
         objs.append(o)
         san = fl["san"]
@@ -166,10 +180,10 @@ def build_lib(flavour):
 def build_driver(name, flavour):
     """returns path of the executable for harness/drivers/<name>.c"""
     fl = FLAVOURS[flavour]
-    d, objs = build_lib(flavour)
     root = src_root()
     hdir = os.path.join(VERIF, "harness")
     src = os.path.join(hdir, "drivers", name + ".c")
+    d, objs = build_lib(flavour, _link_list(src))
     hh = hashlib.sha256((_hfile_hash(src) + " ".join(sorted(objs))).encode()).hexdigest()[:12]
     exe = os.path.join(d, "drv_" + name + "_" + hh)
     if os.path.exists(exe):
